@@ -181,6 +181,41 @@ def coverage_behaviours(tier, v):
     return [schedlib.parse_compact(m) for m in mx]
 
 
+def focus_behaviours(v):
+    """Finished behaviours of the 4 fibers x 2 channels x 3 operations model in which a waiter search skipped the entry
+    of a finished fiber and found a live waiter behind it (Sched.tla FocusMode; after that step every fiber just
+    ends, so the behaviour is determined).  This is the part of the 4-fiber space that the exhaustive 3-fiber
+    replay cannot reach.  The TLC output is a function of the spec files only and is cached under work/ for the
+    sister check (C07 / C08 run the same pipeline)."""
+    import hashlib
+    h = hashlib.sha1()
+    for f in ("Sched.tla", "Fibers.tla", "MC_Sched.tla", "MC_Sched_focus.cfg"):
+        h.update(open(os.path.join(vlib.SPEC, f), "rb").read())
+    cache = os.path.join(vlib.WORK, f"focus_{h.hexdigest()[:16]}.json")
+    if os.path.exists(cache):
+        data = json.load(open(cache))
+    else:
+        r = vlib.tlc("MC_Sched", "MC_Sched_focus", workers=min(vlib.NCPU, 12), timeout=3000, heap="24g")
+        if r["timeout"] or r["distinct"] == 0 or "is violated" in r["out"] or "No error has been found" not in r["out"]:
+            raise vlib.ToolError("TLC focus run failed:\n" + r["out"][-1500:])
+        data = {"steps": vlib.tlc_json(r["out"], "STEP"), "distinct": r["distinct"], "states": r["states"]}
+        os.makedirs(vlib.WORK, exist_ok=True)
+        with open(cache + ".tmp", "w") as f:
+            json.dump(data, f)
+        os.replace(cache + ".tmp", cache)
+    v.cov["states"] += data["distinct"]
+    v.cov["transitions"] += data["states"]
+    seen, out = set(), []
+    for st in data["steps"]:
+        key = json.dumps(st["prog"], sort_keys=True)
+        if key in seen:
+            continue
+        seen.add(key)
+        out.append(schedlib.parse_compact(st))
+    v.notes["focus_behaviours"] = len(out)
+    return out
+
+
 def model_classes(pred):
     """Defect classes the as-is model itself predicts for a behaviour."""
     out = []
@@ -220,6 +255,12 @@ def run(pid, tier, replay=None):
             cases.append(schedlib.behaviour_to_case(b, caps, syncs, cid))
             preds[cid] = b
             mode[cid] = "prefix"
+        caps, syncs = CAPS["q"]
+        for i, b in enumerate(focus_behaviours(v)):
+            cid = f"focus:{i}"
+            cases.append(schedlib.behaviour_to_case(b, caps, syncs, cid))
+            preds[cid] = b
+            mode[cid] = "full"
         caps, syncs = CAPS["sim"]
         for i, b in enumerate(simulate(tier, v)):
             cid = f"sim:{i}"
